@@ -100,6 +100,11 @@ func (it *Iterator) Seek(key []byte) bool {
 	if !it.valid {
 		it.moveToRightMostKey()
 	}
+	// seek may stop on the greatest key below the target (diverging suffix / label beyond the node's last
+	// label / target beyond the last key): move on to the first key >= target.
+	if it.valid && bytes.Compare(it.Key(), key) < 0 {
+		it.Next()
+	}
 	return fp
 }
 
